@@ -503,6 +503,16 @@ func generate(rn *runner, rng *hlib.Rng, bits, multis, combos int) {
 			c.Tag = "policy"
 			c.TcbNil = true
 			rn.add(c)
+			if v.Accepted {
+				// K2, deterministically: the FMSPC black list holds the platform's FMSPC in lower case
+				c = base.clone()
+				c.Tag = "policy"
+				if c.Pol == nil {
+					c.Pol = &pcs.QuotePolicy{TCBValidityPeriod: 30, MinTCBEvaluationDataNumber: pcs.DefaultMinTCBEvaluationDataNumber}
+				}
+				c.Pol.FMSPCBlacklist = []string{strings.ToLower(tcbInfoFacts(base.TcbBody).info.FMSPC)}
+				rn.add(c)
+			}
 		}
 	}
 
